@@ -324,6 +324,18 @@ func runC15(c c15Case, ev *Ev) error {
 		if err := c15Pools(r, fmt.Sprintf("follow-up session %d after %s/%d/%s", i, c.Target, c.K, c.Code)); err != nil {
 			return err
 		}
+		// a deletion that failed is tried again (fault-free) once another session had the chance to receive
+		// what the failed attempt gave away too early: a second release would free it under its new owner
+		if i == 0 && c.Target == "del" {
+			if s0 := run.Sess[0]; s0 != nil && s0.Live {
+				if od := run.Exec(model.Op{Kind: "del", Peer: 0, Seq: 360, Sess: 0, Note: "any"}); od.NoResp {
+					return fmt.Errorf("retried deletion: no response")
+				}
+				if err := c15Exclusive(run, r.P4, r.A.Iface.VerifUP4FreeIDs()); err != nil {
+					return fmt.Errorf("after %s with failing write %d (%s), a follow-up session and the retried deletion: %w", c.Target, c.K, c.Code, err)
+				}
+			}
+		}
 	}
 	if ev != nil {
 		ev.Label(fmt.Sprintf("%s/injected=%v/accepted=%v", c.Target, injected, o.Accepted))
